@@ -274,4 +274,22 @@ CHECKS = {
              "shards": {"quick": 1, "thorough": 16}, "timeout": {"quick": 600, "thorough": 7200}},
         ],
     },
+    "C14": {
+        "rule": ("per protocol a generator of complete first messages over the field ranges, single-field corruptions of them and filter configurations, each paired with the verdict the "
+                 "wire definition and the matcher's documentation demand (must match / must not match / unspecified - the last is not judged): ssh, xmpp, postgres (SSLRequest, "
+                 "StartupMessage v3/v2, parameters), socks4 (commands, ports, networks), socks5 (method lists vs auth_methods), proxy_protocol (v1/v2 signatures), regexp (pattern x "
+                 "count), local_ip/remote_ip/not (CIDR sets incl. IPv6), clock (windows, swapped bounds, 00:00:00 as end of day, fixed offsets and IANA zones; time injected through "
+                 "l4.conn.wrap_time), dns (TCP/UDP framing, header flags, trailing bytes, allow/deny/regexp rules, default_deny, prefer_allow), rdp (cookie/token/custom x RDP_NEG_REQ x "
+                 "correlation info x the five filters), wireguard (initiation/keepalive sizes, type, reserved bytes vs zero), openvpn (plain/auth/crypt hard resets signed with "
+                 "generated keys, digests, replay ids, timestamps, modes; TCP and UDP), winbox (modes, user-name alphabet, key length, parity, filters), http (request line, "
+                 "host/path/method/header sub-matchers, HTTP/2 prior knowledge). Non-trivial = a filtered or corrupted case with a specified verdict; distinct = distinct (config, message)."),
+        "assumptions": ["where the definitions leave a case open (SOCKS5 greeting without methods, IPv4-mapped addresses, packets that can be read as another OpenVPN mode, free-form RDP routing info followed by odd bytes) the case is generated but not judged",
+                        "regular expressions in generated configurations avoid brace quantifiers: Caddy replaces {...} placeholders before a pattern is compiled",
+                        "OpenVPN messages are signed/encrypted with the module's own primitives (there is no second implementation offline); field-level rules are independent"],
+        "min_classes": {"quick": {"C14/must-match": 4000, "C14/must-not-match": 4000, "C14/corrupted": 1500, "C14/dns": 900, "C14/rdp": 900, "C14/openvpn": 900, "C14/clock": 900}},
+        "runs": [
+            {"name": "reference", "pkg": "./c14", "run": ".", "rapid_checks": {"quick": 1000, "thorough": 150000},
+             "shards": {"quick": 1, "thorough": 16}, "timeout": {"quick": 600, "thorough": 7200}},
+        ],
+    },
 }
